@@ -41,7 +41,10 @@ L3 == {[k |-> "IntersectionExtension", s |-> {v, W("z")}] : v \in Sample(L2, 11,
       \cup {[k |-> "Equivalence", p |-> {v, SE1(v)}] : v \in Sample(L2, 13, SEED)}
 \* sets with many elements (a hash that only looks at part of a set is fine below that size), intervals that differ by 2^32 / 2^63
 Ws(m) == {W("w" \o ToString(i)) : i \in 1..m}
-Big == {[k |-> kd, s |-> Ws(m)] : kd \in SetKinds, m \in {9, 12, 20}}
+Big == {[k |-> kd, s |-> Ws(m)] : kd \in SetKinds, m \in {9, 12, 17, 20, 33, 65}}
+       \cup {[k |-> kd, s |-> Ws(m)] : kd \in {"SetExtension", "Conjunction"}, m \in {48, 129, 257}}
+       \cup {[k |-> "SetIntension", s |-> {[k |-> "SetExtension", s |-> Ws(34)], W("a")}],
+             [k |-> "Similarity", p |-> {[k |-> "IntersectionIntension", s |-> Ws(40)], [k |-> "Disjunction", s |-> Ws(33)]}]}
        \cup {[k |-> "Similarity", p |-> {[k |-> "SetExtension", s |-> Ws(9)], [k |-> "Conjunction", s |-> Ws(10)]}],
              [k |-> "SetIntension", s |-> {[k |-> "Disjunction", s |-> Ws(11)], W("a")}]}
 Ints == {INT("1"), INT("4294967297"), INT("9223372036854775809"), INT("0"), INT("4294967296")}
